@@ -11,14 +11,14 @@ import (
 func init() {
 	register(&Prop{
 		ID:    "C17",
-		Rules: []*Rule{rMigration, scoped(rTypeKeyWho, "who may use the raw type name; GetTypeKey asks for the family", func(_ *core.Ctx, k string) bool { return containsAny(k, "getFullTypeName", "GetTypeKey") }), scoped(rOpaque, "type names kept and re-emitted", func(_ *core.Ctx, k string) bool { return containsAny(k, "getTypeDetails", "details", "Details") }), forwardScoped("RegisterTypeMigration"), {Name: "R-LOOP-EXITS", Doc: rLoopExits.Doc, Run: func(c *core.Ctx) { runLoopExits(c, map[string]bool{"errbase.RegisterTypeMigration": true}) }}},
+		Rules: []*Rule{rMigration, rRegistryKey, scoped(rTypeKeyWho, "who may use the raw type name; GetTypeKey asks for the family", func(_ *core.Ctx, k string) bool { return containsAny(k, "getFullTypeName", "GetTypeKey") }), scoped(rOpaque, "type names kept and re-emitted", func(_ *core.Ctx, k string) bool { return containsAny(k, "getTypeDetails", "details", "Details") }), forwardScoped("RegisterTypeMigration"), {Name: "R-LOOP-EXITS", Doc: rLoopExits.Doc, Run: func(c *core.Ctx) { runLoopExits(c, map[string]bool{"errbase.RegisterTypeMigration": true}) }}},
 		Explain: "Decides the registry discipline that the cross-version scenarios rest on: a migration target cannot be registered twice; getTypeDetails consults the registry on every call for every non-opaque error (no stale cached name); all identity consumers go through getTypeDetails; unknowing processes keep and re-emit the received (original) key; the module's own type keys of migrated types are computed after the migration is registered. " +
 			"NOT decided: order-independence of chained renames registered by users and the five cross-version scenarios as such (registry algorithm semantics over runtime configurations; observation O1 in DESIGN §6: A->B then B->C leaves C mapped to B).",
 		Trusted: []string{"go/ssa", "package initialisation order of the Go runtime"},
 	})
 	register(&Prop{
 		ID:    "C15",
-		Rules: []*Rule{rReport, scoped(rWalkMulti, "the report visitor", func(_ *core.Ctx, k string) bool { return strings.Contains(k, "visitAllMulti") }), rStackSlot, rStackParse, scoped(rOneParser, "GetReportableStackTrace", func(_ *core.Ctx, k string) bool { return containsAny(k, "GetReportableStackTrace", "convertPkgStack") }), rEffectReport, {Name: "R-TAINT/S5", Doc: "the S5 sub-class of R-TAINT: provenance of every value written into the Sentry message, exceptions and extras", Run: func(c *core.Ctx) { runTaintFiltered(c, func(s *Sink) bool { return s.Class == "S5" }) }},
+		Rules: []*Rule{rReport, rReverse, rFuncName, scoped(rWalkMulti, "the report visitor", func(_ *core.Ctx, k string) bool { return strings.Contains(k, "visitAllMulti") }), rStackSlot, rStackParse, scoped(rStackEmpty, "the frame parser", func(_ *core.Ctx, k string) bool { return strings.Contains(k, "parsePrintedStack:") }), scoped(rOneParser, "GetReportableStackTrace", func(_ *core.Ctx, k string) bool { return containsAny(k, "GetReportableStackTrace", "convertPkgStack") }), rEffectReport, {Name: "R-TAINT/S5", Doc: "the S5 sub-class of R-TAINT: provenance of every value written into the Sentry message, exceptions and extras", Run: func(c *core.Ctx) { runTaintFiltered(c, func(s *Sink) bool { return s.Class == "S5" }) }},
 			{Name: "R-LOOP-EXITS", Doc: rLoopExits.Doc, Run: func(c *core.Ctx) { runLoopExits(c, map[string]bool{"report.visitAllMulti": true}) }}},
 		Explain: "Decides: nil gives (nil, nil); the layer walk visits every node of the tree; stacks and safe details are collected in lock-step per node; every exception's module is the error's domain; the message is laid out source location / redacted verbose rendering / composition; the 'error types' extra is the per-layer buffer; the stack re-parsing covers the same type keys as the one-line source; provenance of every event field (S5). " +
 			"NOT decided: counting/ordering relations over runtime lists (exactly one exception per stack, one type line per layer).",
@@ -57,7 +57,7 @@ func init() {
 	})
 	register(&Prop{
 		ID:    "C11",
-		Rules: []*Rule{rCodec, rRegType, rErrnoTable, rStackSlot, rStackParse, rTreeRec, rOneParser, rSiblingGuard, rCodeGetter},
+		Rules: []*Rule{rCodec, rRegType, rErrnoTable, rStackSlot, rStackParse, rStackEmpty, rTreeRec, rOneParser, rSiblingGuard, rCodeGetter},
 		Explain: "Decides, for every registered type key, that each annotation field has a wire slot that the writer fills from that same field and the reader restores into that same field (payload members, positional safe details, message), that decoders rebuild the key's own type (so flag types recognised by Go type survive), that errno predicates travel in matching pairs, and that the printed-stack slot is re-parsed for the same key set by both stack accessors. " +
 			"NOT decided: equality of re-parsed frames (text parsing), tag values rendered through ValueStr, OS predicates on foreign platforms beyond the pairing.",
 		Trusted: []string{"go/ssa", "gogo/protobuf marshalling of the payload messages"},
@@ -108,7 +108,7 @@ func init() {
 	})
 	register(&Prop{
 		ID:    "C14",
-		Rules: []*Rule{rProtocol, rWrapDual, rStdIdentity, scoped(rWalkMulti, "Is, IsAny, As", func(_ *core.Ctx, k string) bool { return containsAny(k, "markers.Is", "errutil.As", "is a leaf for UnwrapOnce") }), forwardScoped("Is", "IsAny", "As", "If", "HasType", "HasInterface", "Unwrap", "UnwrapOnce", "UnwrapAll", "UnwrapMulti", "Cause")},
+		Rules: []*Rule{rProtocol, rWrapDual, rStdIdentity, rUnwrapAll, rWalkCurrent, scoped(rWalkMulti, "Is, IsAny, As", func(_ *core.Ctx, k string) bool { return containsAny(k, "markers.Is", "errutil.As", "is a leaf for UnwrapOnce") }), forwardScoped("Is", "IsAny", "As", "If", "HasType", "HasInterface", "Unwrap", "UnwrapOnce", "UnwrapAll", "UnwrapMulti", "Cause")},
 		Explain: "Decides the structural side of drop-in compatibility: the library probes exactly the standard protocol methods (Is/As/Unwrap/Unwrap []error/Cause) with their exact signatures and precedence; every library wrapper implements both Cause() and Unwrap() over the same field so stdlib and pkg/errors traverse library chains; Is/As recurse into multi-cause branches in order; the root API forwards to the right implementation with parameters in order. " +
 			"NOT decided: differential agreement with errors.Is/As/pkg-errors.Cause on all inputs.",
 		Trusted: []string{"go/ssa", "the standard library's own Is/As/Unwrap semantics"},
@@ -122,7 +122,7 @@ func init() {
 	})
 	register(&Prop{
 		ID:    "C09",
-		Rules: []*Rule{rFmtDelegate, rShape, rDetailPrint, rVerbDispatch, rGuardField, rSep},
+		Rules: []*Rule{rFmtDelegate, rShape, rDetailPrint, rVerbDispatch, rGuardField, rSep, rStateFlags, rSpecialText},
 		Explain: "Decides the code-level reasons the verbs are mutually consistent: every instantiated library type routes Format through the single dispatcher FormatError; Error() and the detail formatter of each type agree on the message shape (so %v/%s = Error() at every depth); each wrapper's annotation fields reach a Print inside the detail region. " +
 			"NOT decided: width/precision/flag rendering (delegated to fmt), entry numbering/indentation and the 'Error types' line (loop arithmetic over runtime lists), comparison with reference renderings.",
 		Trusted: []string{"go/ssa", "fmt and redact formatting semantics"},
@@ -139,7 +139,7 @@ func init() {
 	})
 	register(&Prop{
 		ID:    "C16",
-		Rules: []*Rule{rDepth, rMemo, rOrderOneLine, scoped(rOneParser, "GetOneLineSource", func(_ *core.Ctx, k string) bool { return containsAny(k, "GetOneLineSource", "getOneLineSourceFromPkgStack") })},
+		Rules: []*Rule{rDepth, rMemo, rFuncName, scoped(rStackEmpty, "the one-line source parser", func(_ *core.Ctx, k string) bool { return strings.Contains(k, "getOneLineSourceFromPrintedStack") }), rOrderOneLine, scoped(rOneParser, "GetOneLineSource", func(_ *core.Ctx, k string) bool { return containsAny(k, "GetOneLineSource", "getOneLineSourceFromPkgStack") })},
 		Explain: "Decides the depth arithmetic of every exported stack-capturing or domain-computing function of the root package, errutil, withstack and domains, for ALL depths and all forwarding paths at once (affine equation S = 1 [+ depth]). " +
 			"NOT decided: GetOneLineSource's text parsing; the Go runtime's skip semantics (inlined frames) are trusted.",
 		Trusted: []string{"go/ssa", "semantics of runtime.Callers(skip)/runtime.Caller(skip) incl. inlined frames"},
